@@ -115,6 +115,13 @@ MayFileUnder(c) == {c} \cup DownPts(c) \cup UpPts(c)
 (* chooses what it is seeded with: a value, or None (present, but None).     *)
 SeedVal(c) == IF prog[c].outc = "none" THEN NoneV ELSE SeedV(c)
 Graph  == {c \in Defined : prog[c].ingraph}
+(* dr.get_dependency_graph / determine_components: when the caller names      *)
+(* targets instead of handing over a graph, the evaluated graph is their      *)
+(* dependency closure.                                                        *)
+RECURSIVE DepClosure(_)
+DepClosure(S) == LET S2 == S \cup UNION {{prog[c].flat[i] : i \in DOMAIN prog[c].flat} : c \in S}
+                 IN IF S2 = S THEN S ELSE DepClosure(S2)
+Targets == {c \in Defined : prog[c].target}
 Seeded == {c \in Defined : prog[c].seeded}
 
 -----------------------------------------------------------------------------
@@ -136,7 +143,7 @@ MayBeList(d) == Kind(d) \in {"point", "parser"} \/ prog[d].outc = "list"
 DefineWith(k, o, d, en, sd, ig, coe, ign, eo) ==
     /\ prog' = Append(prog, [kind |-> k, decl |-> d, req |-> ReqOf(d), grp |-> GrpOf(d), flat |-> FlatSeq(d),
                              outc |-> o, eouts |-> eo, coe |-> coe,
-                             enabled |-> en, seeded |-> sd, ingraph |-> ig, ignore |-> ign])
+                             enabled |-> en, seeded |-> sd, ingraph |-> ig, target |-> ig, ignore |-> ign])
     /\ UNCHANGED <<phase, ss, mode, subs, nextSub, cur, inst, missing, excs, att, calls>>
 
 ListFed(k, d) == k = "parser" /\ MayBeList(d[1].ds[1])
